@@ -8,6 +8,7 @@ an uncatchable ``Crash`` raised at boundary k, checks the rollback oracle, and r
 without crash to compare outcome / tree incl. mtimes / invocation log with the twin.
 Cache-write failure (position K+1) is injected through the interposition layer (see c14/interpose).
 """
+import os
 import sys
 
 from hypothesis import strategies as st
@@ -68,6 +69,23 @@ def drive(draw, h, cfg):
     if h.dead:
         return
     vers = draw(gen.versions_for(names)) if gen.chance(draw, 0.3) else (h.last.get('versions', {}) if h.last else {})
+    if gen.chance(draw, 0.2):
+        # an output path of the program is, before the crashing build, a symbolic link (absolute or relative text) to a
+        # regular file that no build_file call touches: for the library it is a foreign regular file, which the
+        # rollback has to put back as it was
+        from ..dsl import iter_stmts
+        targets = sorted({s_[1] for blk in [h.prog_rel['root']] + [f['body'] for f in h.prog_rel['funcs'].values()]
+                          for s_ in iter_stmts(blk) if s_[0] == 'bf'})
+        files = [u for u in univ if os.path.isfile(h.sb.ap(u)) and not os.path.islink(h.sb.ap(u)) and
+                 not any(u == t or u.startswith(t + '/') or t.startswith(u + '/') for t in targets)]
+        spots = [t for t in targets if not os.path.lexists(h.sb.ap(t)) and not h.protected(h.sb.ap(t))]
+        if files and spots:
+            n0 = h.stats['ext_effective']
+            h.failures.extend(h.apply(['symlink', draw(st.sampled_from(spots)), draw(st.sampled_from(files))] +
+                                      (['rel'] if draw(st.booleans()) else [])))
+            h.stats['c02_linked_output_paths'] += h.stats['ext_effective'] - n0
+    if h.dead:
+        return
     # ---- counting run == twin
     h.apply(['save'])
     h.failures.extend(h.apply(['build', vers, None, None, {'k': None}]))      # fault-free run that also lists the library's mutating calls
